@@ -213,7 +213,16 @@ func distWant(fn string, a, b lArg) c10Want {
 }
 
 func (g *c10Gen) text() tArg {
-	switch g.r.Intn(6) {
+	switch g.r.Intn(8) {
+	case 6, 7:
+		// the same text carried by another Go kind: the evaluators hand functions a string (not the
+		// cursor's []byte) when the text comes out of a concatenation, join, split or substr
+		base, f := "value", func(kv kvql.KVPair) string { return string(kv.Value) }
+		if g.r.Chance(1, 4) {
+			base, f = "key", func(kv kvql.KVPair) string { return string(kv.Key) }
+		}
+		carrier := pick(g.r, []string{"(%s + '')", "join('', %s)", "split(%s, '§§')[0]", "substr(%s, 0, 100000)", "('' + %s)"})
+		return tArg{text: fmt.Sprintf(carrier, base), f: f}
 	case 0:
 		return tArg{text: "key", f: func(kv kvql.KVPair) string { return string(kv.Key) }}
 	case 1, 2:
